@@ -219,6 +219,9 @@ SPEC = {
             'non-trivial = every case; distinct = distinct case text',
     'extra_trusted': ['C19: std::io::Write::write_all (retry on Interrupted, WriteZero on Ok(0), advance on short write) transcribed from the std source',
                       'C19: the complete output fed to the model is the implementation\'s own (perfect sink); what the bytes ARE is C01/C03\'s concern'],
+    'partial_note': 'resave_after_failure is proved for the document state and the issued calls (C19_failed_save_residue, '
+                    'C19_resave_table, C19_resave_stream_partial); that the re-saved file loads to the same content needs the loader '
+                    '(C01/C03) and is evaluated on the implementation for every case instead',
     'model_shards': 16,
     'impl_shards': 8,
 }
@@ -236,8 +239,9 @@ MANIFEST = {
                   'are always a prefix (C19_ok_iff_complete); a hard answer (error or Ok(0)) is returned as that very error '
                   '(C19_failure_is_error_and_prefix, C19_failure_at_position); the counter read before each call equals the bytes '
                   'really delivered (C19_counter_exact); a failed save leaves the document either untouched or with exactly the '
-                  'bookkeeping mutation of a successful one (C19_failed_save_residue ...). Tied to the real save_to by differential '
-                  'runs with scripted sinks at every failure offset.',
+                  'bookkeeping mutation of a successful one (C19_failed_save_residue, C19_resave_table, C19_resave_stream_partial); the '
+                  'incremental path is observably the plain one (C19_incremental_is_plain); all of it instantiated at Model/Save.v '
+                  '(C19_save_*). Tied to the real save_to by differential runs with scripted sinks at every failure offset.',
     'level_note': 'Trusted: Coq kernel; std write_all transcription; hand-written model tied by correspondence (result class, '
                   'delivered bytes, max_id/trailer after the save, byte-identity of the re-save); extraction/OCaml driver; Rust harness. '
                   'What the saved bytes are and that they load back is C01/C03; here the re-save clause is proved at the level of '
